@@ -505,8 +505,8 @@ theorem C16_record_rows_positional (f : Frame) (r r' : RecArray) (idx : List Int
   · simp [writeRowsRec, RecArray.tuples, h]
 
 /-- **creation from a structured array is positional, too**: with `col_dict` or `col_names + col_dtypes` an accepted
-    creation is the creation from the records taken apart into tuples (field names and layout play no role) and
-    another number of fields than columns is refused; `col_names` alone takes the field types as column types; the
+    creation is the creation from the records taken apart into tuples (field names and layout play no role; a value
+    a column cannot hold is refused as in a tuple, fix ac50c5b) and another number of fields than columns is refused; `col_names` alone takes the field types as column types; the
     array alone gives the columns its fields **in `dtype.names` order** (proper names kept as they are) whatever the
     byte offsets are, and `read_rows(k)` returns record `k` -/
 theorem C16_record_creation_positional :
@@ -519,11 +519,11 @@ theorem C16_record_creation_positional :
       mkDtype r.cols = .ok f.cols ∧ f.types = r.types ∧ ((∀ c ∈ r.cols, c.1 ≠ "") → f.cols = r.cols) ∧
       f.rows.length = r.rows.length ∧
       ∀ k (hk : k < r.rows.length), ∃ w, convRow f.types r.rows[k] = .ok w ∧ readRow f (k : Int) = .ok w) ∧
-    (∀ cols c r, r.rows ≠ [] → mkDtype cols = .ok c → r.fields.length ≠ c.length →
-      createDictRec cols r = .error .typeError) ∧
+    (∀ cols c r, mkDtype cols = .ok c → (∃ row ∈ r.rows, row.length ≠ c.length) →
+      ∃ e, createDictRec cols r = .error e) ∧
     (∀ r r', r.cols = r'.cols → r.rows = r'.rows → createStructRec r = createStructRec r') := by
   refine ⟨fun _ _ _ h => createWithRec_ok h, fun _ _ _ _ h => createNamesTypesRec_ok h,
-    fun _ _ _ h => createNamesRec_ok h, ?_, fun _ _ _ hr hc hn => createWithRec_count hr hc hn, ?_⟩
+    fun _ _ _ h => createNamesRec_ok h, ?_, fun _ _ _ hc hn => createWithRec_count hc hn, ?_⟩
   · intro r f h
     have h' : createStruct r.cols r.rows = .ok f := h
     obtain ⟨_, h2⟩ := createStruct_spec h'
@@ -689,7 +689,7 @@ example : (appendRowsRec exFrame exRec).1.rows = exFrame.rows ++ [[.int 3, .str 
     (writeRowsRec exFrame exRec [-1]).1.rows = [[.int 1, .str "x"], [.int 3, .str "z"]] := by decide
 example : (createStructRec exRec).map (·.cols) = .ok [("a", .i8), ("label", .text)] ∧
     (createNamesRec ["p", "q"] exRec).map (·.cols) = .ok [("p", .i8), ("q", .text)] ∧
-    createDictRec [("k", .i8)] exRec = .error .typeError := ⟨rfl, rfl, rfl⟩
+    createDictRec [("k", .i8)] exRec = .error .valueError := ⟨rfl, rfl, rfl⟩
 example : CreatedR exFrame := CreatedR.lists (Created.dict exFrame_created)
 example : (stepR exFrame (.appendRowsRec ⟨[("a", .i8, 0)], [[.int 3]]⟩)).2 = some .valueError := by decide
 
